@@ -38,7 +38,7 @@ MAXINT = {"3A": 512, "3B1": 512, "3B2": 512, "NP2.1": 8192, "NP2.4": 8192, "NP2.
 
 
 def bounds(tier):
-    return {"sites": 3 if tier == "quick" else 4, "list_len": 3, "kinds": list(VERSIONS)}
+    return {"sites": 3 if tier == "quick" else 6, "list_len": 3 if tier == "quick" else 5, "kinds": list(VERSIONS)}
 
 
 def setup():
